@@ -243,8 +243,11 @@ func (r *recorder) Push(target string, opts *http.PushOptions) error {
 // an error matching [http.ErrNotSupported]. See [http.Hijacker] for more details.
 func (r *recorder) Hijack() (net.Conn, *bufio.ReadWriter, error) {
 	if hijacker, ok := r.ResponseWriter.(http.Hijacker); ok {
-		r.hijacked = true
-		return hijacker.Hijack()
+		conn, rw, err := hijacker.Hijack()
+		if err == nil {
+			r.hijacked = true
+		}
+		return conn, rw, err
 	}
 	return nil, nil, ErrNotSupported()
 }
